@@ -227,7 +227,10 @@ def run(ctx):
                 judge_tree_ops(ctx, gname, g, m, f, text, solver, tl, sat, rng, fam)
             if s:
                 i = rng.randrange(len(s))
-                for miss in (s[:i] + s[i + 1:], s[:i] + rng.choice(alpha) + s[i:], ""):
+                # near misses: one character dropped / inserted, the empty string, and a member with trailing or leading
+                # layout the grammar may not allow (what a file read or a shell pipe appends)
+                pad = rng.choice(["\n", "\n\n", " ", "\r\n", "\t"])
+                for miss in (s[:i] + s[i + 1:], s[:i] + rng.choice(alpha) + s[i:], "", s + pad, rng.choice(["\n", " "]) + s):
                     judge_string(ctx, gname, g, m, f, text, solver, miss, None, "near-miss")
 
 
